@@ -7,7 +7,7 @@ import itertools
 from sa.gen import AConf
 from sa.repo import AnalysisError
 from sa.wrapcheck import analyse
-from sa.wrapgen import AFunc, NORETURN, WrapperGenerator
+from sa.wrapgen import ACode, AFunc, NORETURN, WrapperGenerator
 
 from . import _gen
 
@@ -86,6 +86,21 @@ def functions(ctx):
                     f = AFunc(f'f{si}', posonly, flex, vararg, kwonly, varkw, kind, a)
                     f.pattern, f.ret_kind = pname, rname
                     out.append(f)
+    # functools.wraps adapters: the decorated callable is a signature-transparent wrapper (*args, **kwargs) of
+    # its own kind around a callable of another kind; hints and parameters are those of the wrapped callable,
+    # the kind of the generated wrapper must be the adapter's
+    for outer_kind, inner_kind in (('coro', 'sync'), ('sync', 'coro'), ('agen', 'gen'), ('gen', 'sync'), ('sync', 'sync')):
+        ann = {'p': C('T_p'), 'x': C('T_x'), 'k': C('T_k'), 'return': C('R')}
+        if outer_kind == 'gen':
+            ann['return'] = G.shallow('HintSignGenerator')
+        if outer_kind == 'agen':
+            ann['return'] = G.shallow('HintSignAsyncGenerator')
+        inner = AFunc('inner', ('p',), ('x',), None, ('k',), None, inner_kind, ann)
+        f = AFunc(f'adapter_{outer_kind}_around_{inner_kind}', ('p',), ('x',), None, ('k',), None, outer_kind, ann)
+        f.__code__ = ACode(f.__name__, (), (), (), 'args', 'kwargs', outer_kind)
+        f.__wrapped__ = inner
+        f.pattern, f.ret_kind = 'all', 'class'
+        out.append(f)
     # unannotated callable and return-only callable
     out.append(AFunc('bare', (), ('x',), None, (), None, 'sync', {}))
     out[-1].pattern, out[-1].ret_kind = 'none', 'none'
